@@ -135,6 +135,19 @@ class HashUnit(Unit):
             rp = replay_hash(sid, b'k', b'p')
             if rp['confirmed']:
                 fails.append(dict(call=rp['call'], observed=rp['observed'], witness='hash'))
+        # one digest for every possible leading byte (sign boundary 0x7f/0x80, 0x00, 0xff, ...)
+        lead, n = {}, 0
+        while len(lead) < 256 and n < 100000:
+            n += 1
+            d = hashlib.sha1(('t%d' % n).encode() + b'K' + b'P').digest()
+            if d[0] not in lead:
+                lead[d[0]] = 't%d' % n
+        for b0 in sorted(lead):
+            cnt += 1
+            rp = replay_hash(lead[b0], b'K', b'P')
+            if rp['confirmed']:
+                fails.append(dict(call=rp['call'], observed=rp['observed'], witness='hash'))
+                break
         for _ in range(300):
             cnt += 1
             sid = ''.join(chr(rng.choice([rng.randrange(32, 127), rng.randrange(0xa0, 0x800), 0x20ac])) for _ in range(rng.randrange(0, 20)))
@@ -144,7 +157,7 @@ class HashUnit(Unit):
                 break
         return dict(name='C17.hash.vectors', evaluations=cnt, failures=fails[:2],
                     bound='3 published vectors, searched digests (top bit set / leading zero nibble / leading zero byte: %r), '
-                          '300 seeded random triples' % (found,))
+                          'one digest per leading byte value 0..255, 300 seeded random triples' % (found,))
 
 
 def _safe_eq(a, b):
